@@ -17,6 +17,7 @@
 //	close <id> <target>                         CRCProposal of type CloseProposal, real check
 //	redo                                        this block is connected, disconnected (RollbackTo) and connected again
 //	chg                                         a committee change recomputes the used amount at the end of this block (hook)
+//	realwd <i,j,..> <inp> <utxos>              CRCProposalRealWithdraw paying pending v1 withdrawals (by number), real check
 //	fund <v>                                    environment: payment to the CR expenses address (committee UTXO)
 //	withdraw0 <id> <inp> <out0> <out1|-> <toC> <utxos>   CRCProposalWithdraw payload v0 spending committee UTXOs, real check
 //	end [order]                                 Committee.ProcessBlock; prints committee + every proposal; order = processing
@@ -99,6 +100,11 @@ type prop struct {
 	budgets []payload.Budget
 }
 
+type wdrec struct {
+	hash   common.Uint256
+	amount common.Fixed64
+}
+
 type cutxo struct {
 	value common.Fixed64
 	op    ctypes.OutPoint
@@ -122,6 +128,8 @@ type world struct {
 	paid    map[int]common.Fixed64 // Σ amounts recorded for real withdrawal, per proposal (from WithdrawableTxInfo)
 	wtx     map[common.Uint256]int // withdraw tx hash -> proposal id
 	cutxos  []*cutxo               // UTXOs of the CR expenses (committee) address
+	wlist   []wdrec                // accepted payload-v1 withdrawals in order of acceptance (index = number in the op lines)
+	widx    map[common.Uint256]int // withdraw tx hash -> index in wlist
 	cIn     map[int]bool           // committee utxos used as inputs in the open block
 	redo    bool                   // disconnect the block again (Committee.RollbackTo) and connect it a second time
 	chg     bool                   // recompute the used amount (committee change) at the end of the open block
@@ -169,7 +177,7 @@ func newWorld(t []string) *world {
 	chain.SetState(st)
 	chain.SetCRCommittee(cm)
 	ww := &world{params: p, cm: cm, chain: chain, owner: mkKey(1, 0), sg: mkKey(2, 0), props: map[int]*prop{},
-		paid: map[int]common.Fixed64{}, wtx: map[common.Uint256]int{}, cIn: map[int]bool{}}
+		paid: map[int]common.Fixed64{}, wtx: map[common.Uint256]int{}, cIn: map[int]bool{}, widx: map[common.Uint256]int{}}
 	// a sitting committee in its election period (the election itself is outside this property)
 	cm.InElectionPeriod = true
 	cm.LastCommitteeHeight = 1
@@ -239,6 +247,9 @@ func errClass(e error) string {
 		{"stage should assignment zero", "stage"},
 		{"is not proposal final stage", "stage"},
 		{"no need to withdraw", "nothing"},
+		{"invalid withdraw transaction hash", "unknown"},
+		{"duplicated real withdraw transactions hash", "dup"},
+		{"invalid real withdraw transaction fee", "fee"},
 		{"ProgramHash !=CRCComitteeAddresss", "out1"},
 		{"Value + fee != withdrawAmout", "amount"},
 		{"transaction fee not enough", "fee"},
@@ -297,6 +308,20 @@ func (w *world) dump() string {
 			continue
 		}
 		fmt.Fprintf(&b, " %d:%d:%s:%s:%d", id, int(ps.Status), stageList(ps.WithdrawableBudgets), stageList(ps.WithdrawnBudgets), int64(w.paid[id]))
+	}
+	// withdrawals waiting for their real payment (WithdrawableTxInfo), by their number
+	var pend []int
+	for h := range w.cm.GetProposalManager().WithdrawableTxInfo {
+		if i, ok := w.widx[h]; ok {
+			pend = append(pend, i)
+		} else {
+			pend = append(pend, -1)
+		}
+	}
+	sort.Ints(pend)
+	b.WriteString(" W")
+	for _, i := range pend {
+		fmt.Fprintf(&b, " %d", i)
 	}
 	return b.String()
 }
@@ -503,6 +528,58 @@ func exec(t []string) string {
 			w.props[id] = &prop{id: id, hash: pl.Hash(pv)}
 		}
 		return v
+	case "realwd": // realwd <i,j,..> <inp> <utxo,..>: CRCProposalRealWithdraw paying the listed pending withdrawals, real context check
+		var hashes []common.Uint256
+		var outs []*ctypes.Output
+		var need common.Fixed64
+		for _, x := range strings.Split(t[1], ",") {
+			i := int(i64(x))
+			if i < 0 || i >= len(w.wlist) {
+				panic("harness: unknown withdrawal number")
+			}
+			hashes = append(hashes, w.wlist[i].hash)
+			outs = append(outs, &ctypes.Output{ProgramHash: w.owner.standardHash(), Value: w.wlist[i].amount - w.params.CRConfiguration.RealWithdrawSingleFee,
+				Payload: &outputpayload.DefaultOutput{}})
+			need += w.wlist[i].amount
+		}
+		inp := common.Fixed64(i64(t[2]))
+		var ins []*ctypes.Input
+		refs := map[*ctypes.Input]ctypes.Output{}
+		var sum common.Fixed64
+		var ids []int
+		for _, x := range strings.Split(t[3], ",") {
+			ci := int(i64(x))
+			if ci < 0 || ci >= len(w.cutxos) || w.cutxos[ci].spent || w.cIn[ci] || w.cutxos[ci].born >= w.height {
+				panic("harness: bad committee utxo id")
+			}
+			in := &ctypes.Input{Previous: w.cutxos[ci].op}
+			ins = append(ins, in)
+			refs[in] = ctypes.Output{ProgramHash: *w.params.CRConfiguration.CRExpensesProgramHash, Value: w.cutxos[ci].value}
+			sum += w.cutxos[ci].value
+			ids = append(ids, ci)
+		}
+		if sum != inp || inp < need {
+			panic("harness: inp differs from the referenced committee utxos or does not cover the payments")
+		}
+		change := inp - need
+		if change > 0 {
+			outs = append(outs, &ctypes.Output{ProgramHash: *w.params.CRConfiguration.CRExpensesProgramHash, Value: change, Payload: &outputpayload.DefaultOutput{}})
+		}
+		tx := functions.CreateTransaction(9, ctypes.CRCProposalRealWithdraw, 0, &payload.CRCProposalRealWithdraw{WithdrawTransactionHashes: hashes},
+			nil, ins, outs, 0, nil)
+		tx.SetParameters(&transaction.TransactionParameters{Transaction: tx, BlockHeight: w.height, TimeStamp: w.height * 120, Config: w.params, BlockChain: w.chain})
+		tx.SetReferences(refs)
+		v := verdict(tx)
+		if v == "accept" {
+			w.pending = append(w.pending, tx)
+			for _, ci := range ids {
+				w.cIn[ci] = true
+			}
+			if change > 0 {
+				w.cutxos = append(w.cutxos, &cutxo{value: change, op: *ctypes.NewOutPoint(tx.Hash(), uint16(len(outs)-1)), born: w.height})
+			}
+		}
+		return v
 	case "fund": // environment: someone pays the CR expenses address (a committee UTXO appears)
 		v := common.Fixed64(i64(t[1]))
 		tx := w.mk(ctypes.TransferAsset, 0, &payload.TransferAsset{}, nil)
@@ -587,6 +664,8 @@ func exec(t []string) string {
 		if v == "accept" {
 			w.pending = append(w.pending, tx)
 			w.wtx[tx.Hash()] = id
+			w.widx[tx.Hash()] = len(w.wlist)
+			w.wlist = append(w.wlist, wdrec{tx.Hash(), pl.Amount})
 		}
 		return v
 	}
